@@ -3,18 +3,27 @@
 (* seconds, whole tokens).  One caller (threads = 1): EXACT - every tryConsume verdict, every availableTokens() value and   *)
 (* every timeUntilAvailable() value must be the eager bucket's.  Several callers on a shared RateLimiterMap: the log order  *)
 (* need not be the order in which the shard lock was taken, so only the order-insensitive rate bound is demanded: for every *)
-(* key and every interval [s, u], the tokens of the grants that lie surely inside it are at most burst + rate * (u - s).    *)
+(* key and every interval [s, u], the tokens of the grants that lie surely inside it are at most burst + rate * (u - s)     *)
+(* (keys that removeKey() was called on in the execution are exempt: a re-created bucket is full), and a refusal of n <=    *)
+(* burst must be explainable by SOME grant on that key in the execution - a key nobody was ever granted a token of holds a  *)
+(* full bucket in every linearization.  Named deviation Obs_RemoveRacesSlowPath: tryConsume's slow path (insert, then a     *)
+(* second findAndModify) finds nothing when removeKey() ran in between and refuses although no bucket was ever short.       *)
 EXTENDS TraceBase, FiniteSets, Integers
-VARIABLES rate, burst, exact, tok, last, grants, tmax
-vars == <<l, rate, burst, exact, tok, last, grants, tmax>>
-Keys == {"x", "y"}
+VARIABLES rate, burst, exact, tok, last, grants, tmax, start
+vars == <<l, rate, burst, exact, tok, last, grants, tmax, start>>
+Keys == {"x", "y", "z"}
 Min(a, b) == IF a < b THEN a ELSE b
 Max(a, b) == IF a > b THEN a ELSE b
-Init == l = 1 /\ rate = 0 /\ burst = 0 /\ exact = FALSE /\ tok = [k \in Keys |-> 0] /\ last = [k \in Keys |-> 0] /\ grants = <<>> /\ tmax = 0
+Init == l = 1 /\ rate = 0 /\ burst = 0 /\ exact = FALSE /\ tok = [k \in Keys |-> 0] /\ last = [k \in Keys |-> 0] /\ grants = <<>> /\ tmax = 0 /\ start = 1
 EvBegin == /\ IsEv("Begin") /\ rate' = Ev.rate /\ burst' = Ev.burst /\ exact' = (Ev.threads = 1)
-           /\ tok' = [k \in Keys |-> Ev.burst] /\ last' = [k \in Keys |-> 0] /\ grants' = <<>> /\ tmax' = 0
-EvReset == IsEv("Reset") /\ rate' = 0 /\ burst' = 0 /\ exact' = FALSE /\ tok' = [k \in Keys |-> 0] /\ last' = [k \in Keys |-> 0] /\ grants' = <<>> /\ tmax' = 0
+           /\ tok' = [k \in Keys |-> Ev.burst] /\ last' = [k \in Keys |-> 0] /\ grants' = <<>> /\ tmax' = 0 /\ start' = l
+EvReset == IsEv("Reset") /\ rate' = 0 /\ burst' = 0 /\ exact' = FALSE /\ tok' = [k \in Keys |-> 0] /\ last' = [k \in Keys |-> 0] /\ grants' = <<>> /\ tmax' = 0 /\ start' = l
 AvailAt(k, t) == Min(tok[k] + rate * (t - last[k]), burst)
+RECURSIVE ExecEnd(_)
+ExecEnd(i) == IF i >= Len(Log) \/ Log[i].e = "End" THEN i ELSE ExecEnd(i + 1)
+GrantInExec(k) == \E j \in start..ExecEnd(l) : Log[j].e = "Consume" /\ Log[j].k = k /\ Log[j].ok
+RemoveInExec(k) == \E j \in start..ExecEnd(l) : Log[j].e = "Remove" /\ Log[j].k = k
+Obs_RemoveRacesSlowPath(k) == RemoveInExec(k)
 EvConsume == /\ IsEv("Consume") /\ Ev.k \in Keys /\ Ev.t0 <= Ev.t1 /\ Ev.n >= 1
              /\ tmax' = Max(tmax, Ev.t1)
              /\ grants' = IF Ev.ok THEN Append(grants, <<Ev.k, Ev.t0, Ev.t1, Ev.n>>) ELSE grants
@@ -23,19 +32,21 @@ EvConsume == /\ IsEv("Consume") /\ Ev.k \in Keys /\ Ev.t0 <= Ev.t1 /\ Ev.n >= 1
                      /\ Ev.ok = (AvailAt(Ev.k, Ev.t0) >= Ev.n)
                      /\ tok' = [tok EXCEPT ![Ev.k] = IF Ev.ok THEN AvailAt(Ev.k, Ev.t0) - Ev.n ELSE AvailAt(Ev.k, Ev.t0)]
                      /\ last' = [last EXCEPT ![Ev.k] = Ev.t0]
-                ELSE UNCHANGED <<tok, last>>
-             /\ UNCHANGED <<rate, burst, exact>>
+                ELSE /\ (Ev.ok \/ Ev.n > burst \/ GrantInExec(Ev.k) \/ Obs_RemoveRacesSlowPath(Ev.k))
+                     /\ UNCHANGED <<tok, last>>
+             /\ UNCHANGED <<rate, burst, exact, start>>
 EvAvail == /\ IsEv("Avail") /\ exact /\ Ev.v1000 = 1000 * AvailAt("x", Ev.t0)
-           /\ UNCHANGED <<rate, burst, exact, tok, last, grants, tmax>>
+           /\ UNCHANGED <<rate, burst, exact, tok, last, grants, tmax, start>>
 EvWait == /\ IsEv("Wait") /\ exact
           /\ LET a == AvailAt("x", Ev.t0) IN
              Ev.ms = IF a >= Ev.n THEN 0 ELSE ((Ev.n - a) * 1000 + rate - 1) \div rate
-          /\ UNCHANGED <<rate, burst, exact, tok, last, grants, tmax>>
+          /\ UNCHANGED <<rate, burst, exact, tok, last, grants, tmax, start>>
 RECURSIVE SumIn(_, _, _, _)
 SumIn(k, s, u, i) == IF i > Len(grants) THEN 0
                      ELSE (IF grants[i][1] = k /\ grants[i][2] >= s /\ grants[i][3] <= u THEN grants[i][4] ELSE 0) + SumIn(k, s, u, i + 1)
-BoundOk == \A k \in Keys : \A s \in 0..tmax : \A u \in s..tmax : SumIn(k, s, u, 1) <= burst + rate * (u - s)
-EvEnd == IsEv("End") /\ BoundOk /\ UNCHANGED <<rate, burst, exact, tok, last, grants, tmax>>
-Next == EvBegin \/ EvReset \/ EvConsume \/ EvAvail \/ EvWait \/ EvEnd
+EvRemove == IsEv("Remove") /\ ~exact /\ Ev.k \in Keys /\ UNCHANGED <<rate, burst, exact, tok, last, grants, tmax, start>>
+BoundOk == \A k \in Keys : RemoveInExec(k) \/ \A s \in 0..tmax : \A u \in s..tmax : SumIn(k, s, u, 1) <= burst + rate * (u - s)
+EvEnd == IsEv("End") /\ BoundOk /\ UNCHANGED <<rate, burst, exact, tok, last, grants, tmax, start>>
+Next == EvBegin \/ EvReset \/ EvRemove \/ EvConsume \/ EvAvail \/ EvWait \/ EvEnd
 Spec == Init /\ [][Next]_vars
 ================================================================================
